@@ -82,6 +82,7 @@ type Case struct {
 	Out0   string `json:"out0_b64,omitempty"` // out: the producer is retried once; its failed first attempt printed this
 	Collide string `json:"collide,omitempty"`   // out: OUT is also a named parameter ("param") or a DAG env: entry ("env") with a stale value
 	ProdFiles int  `json:"prod_files,omitempty"` // out: the producer also has a stdout: file (1), a stderr: file (2), both (3)
+	EnvDiff bool   `json:"envdiff,omitempty"`    // retrycmd: the DAG has env: RUNDIR: "dir-${C11VAR}" - its value differs when the retry loads the file
 	// observations
 	Err      string            `json:"err,omitempty"`
 	Params   []string          `json:"params"`             // DAG.Params of the (first) load
@@ -231,6 +232,7 @@ type Job struct {
 	Fail1  bool     `json:"fail1,omitempty"` // the DAG: s0 reports, s1 fails on its first call and reports afterwards, s2 reports
 	SubWf  bool     `json:"subwf,omitempty"` // the DAG: s0 reports, s1 runs a child DAG with default params of its own, s2/s3 and the exit handler report
 	ReqID  string   `json:"req,omitempty"`
+	EnvDiff bool    `json:"envdiff,omitempty"`
 	Collide   string `json:"collide,omitempty"`
 	ProdFiles int    `json:"prod_files,omitempty"`
 }
@@ -280,7 +282,7 @@ func schedule(d *dag.DAG, g *scheduler.ExecutionGraph, dir string) (*scheduler.S
 	return sc, sc.Status(g).String()
 }
 
-var sleepStep, failFirst, subWf bool
+var sleepStep, failFirst, subWf, envDiff bool
 
 func envDag(dir string, names []string, npos int, extra ...string) string {
 	me := self()
@@ -326,7 +328,11 @@ func envDag(dir string, names []string, npos int, extra ...string) string {
 			"handlerOn:\n  exit:\n    command: " + me + " envdump " + filepath.Join(dir, "p-handler.json") + " " + strings.Join(all, " ") + "\n"
 	}
 	if failFirst {
-		y = "name: c11env\nsteps:\n" +
+		head := "name: c11env\n"
+		if envDiff {
+			head += "env:\n  - RUNDIR: \"dir-${C11VAR}\"\n"
+		}
+		y = head + "steps:\n" +
 			"  - name: s0\n    command: " + me + " envdump " + filepath.Join(dir, "p-first.json") + " " + strings.Join(all, " ") + "\n" +
 			"  - name: s1\n    command: " + me + " failonce " + filepath.Join(dir, "marker") + " envdump " + filepath.Join(dir, "p-env.json") + " " + strings.Join(all, " ") + "\n    depends:\n      - s0\n" +
 			"  - name: s2\n    command: " + me + " argdump " + filepath.Join(dir, "p-arg.json") + " " + strings.Join(dollars, " ") + "\n    depends:\n      - s1\n"
@@ -410,7 +416,7 @@ func workerMain() {
 		os.Exit(0)
 	case "cli":
 		// the real command line entry point: blackdagger start -p "<params>" file
-		sleepStep, failFirst, subWf = j.Sleep, j.Fail1, j.SubWf
+		sleepStep, failFirst, subWf, envDiff = j.Sleep, j.Fail1, j.SubWf, j.EnvDiff
 		f := envDag(j.Dir, j.Names, j.NPos, j.Extra...)
 		os.Setenv("HOME", j.Dir)
 		os.Setenv("BLACKDAGGER_HOME", filepath.Join(j.Dir, ".blackdagger"))
@@ -733,8 +739,12 @@ func execCase(c *Case, base string) {
 		defer os.RemoveAll(dir)
 		names, npos := namesOf(c.Items)
 		c.Probes = map[string]*Probe{}
-		_, hang := runJob(Job{Mode: "cli", Dir: dir, Params: `"` + c.S + `"`, Names: names, NPos: npos, Fail1: true,
-			Env: []string{"C11VAR=alpha"}, Extra: posEqNames(c.Items)}, 30*time.Second)
+		extra := posEqNames(c.Items)
+		if c.EnvDiff {
+			extra = append(extra, "RUNDIR")
+		}
+		_, hang := runJob(Job{Mode: "cli", Dir: dir, Params: `"` + c.S + `"`, Names: names, NPos: npos, Fail1: true, EnvDiff: c.EnvDiff,
+			Env: []string{"C11VAR=alpha"}, Extra: extra}, 30*time.Second)
 		c.Hang = hang
 		c.Probes["first"] = readProbe(filepath.Join(dir, "p-first.json"))
 		os.Remove(filepath.Join(dir, "p-first.json"))
@@ -1205,6 +1215,9 @@ func main() {
 		for _, it := range retryFixed {
 			add(&Case{Stream: "retrycmd", Gen: "fixed", Items: it})
 		}
+		// an env: entry whose value differs when the retry loads the DAG file: the re-executed steps see the recorded one
+		add(&Case{Stream: "retrycmd", Gen: "fixed", Items: []Item{{Kind: "w", Value: "p1"}}, EnvDiff: true})
+		add(&Case{Stream: "retrycmd", Gen: "fixed", Items: []Item{{Kind: "q", Value: "a b"}, {Kind: "nw", Name: "N", Value: "${C11VAR}"}}, EnvDiff: true})
 		for i := pick(2, 60); i > 0; {
 			it := genItems(rng, true, 3)
 			if !noSubst(it) || strings.ContainsAny(render(it), "\n\r") {
